@@ -32,7 +32,7 @@ theorem c12_shader_crc (s : Bytes) :
   have h0 : (~~~(0xFFFFFFFF : UInt32)) = 0 := by decide
   rw [h0]
   generalize List.foldl Crc32.byteStep 0 s = c
-  bv_decide
+  bv_decide (timeout := 300)
 
 /-- sanity (a test, labelled as such): the published check value JAMCRC("123456789") = 0x340BC6D9 -/
 example : Crc32.crcBitwise 0xFFFFFFFF 0 [0x31,0x32,0x33,0x34,0x35,0x36,0x37,0x38,0x39] = 0x340BC6D9 := by
